@@ -162,6 +162,20 @@ func (g *hdGen) message(c int) hdOp {
 		k = "ctl"
 	}
 	o := hdOp{K: k, C: c, To: g.recipient(), Tag: g.nextTag()}
+	if g.opts.virtual && len(g.vroom) > 0 && g.r.chance(30) {
+		// to a virtual session that was added (it may have been removed or replaced since), half of the time from the
+		// internal client it belongs to, otherwise from whoever is sending: another internal client, an ordinary session
+		var keys [][2]int
+		for k := range g.vroom {
+			keys = append(keys, k)
+		}
+		sort.Slice(keys, func(i, j int) bool { return keys[i][0] < keys[j][0] || (keys[i][0] == keys[j][0] && keys[i][1] < keys[j][1]) })
+		key := pick(g.r, keys)
+		o.To = &hdRecipient{T: "session", Id: &hdIdRef{T: "vpub", C: key[0], V: key[1]}}
+		if _, ok := g.auth[key[0]]; ok && !g.blocked[key[0]] && g.r.chance(50) {
+			o.C = key[0]
+		}
+	}
 	if g.r.chance(15) {
 		o.FS = g.pickConn()
 	}
@@ -359,8 +373,14 @@ func (g *hdGen) mediaOp(c int) hdOp {
 		return hdOp{K: "media", C: c, Mk: "requestoffer", Stream: pick(r, []string{"video", "screen"}),
 			To: &hdRecipient{T: "session", Id: &hdIdRef{T: "pub", C: g.pickConn()}}}
 	case 7:
-		return hdOp{K: "media", C: c, Mk: "candidate", Stream: pick(r, []string{"video", "screen"}),
+		o := hdOp{K: "media", C: c, Mk: "candidate", Stream: pick(r, []string{"video", "screen"}),
 			To: &hdRecipient{T: "session", Id: &hdIdRef{T: "pub", C: g.pickConn()}}}
+		if g.opts.perms && r.chance(60) {
+			// for its own stream (that is the one the publish permissions decide), any stream type
+			o.To = &hdRecipient{T: "session", Id: &hdIdRef{T: "pub", C: c}}
+			o.Stream = pick(r, []string{"video", "screen", "screen", "audio"})
+		}
+		return o
 	default:
 		if g.gated {
 			return hdOp{K: "mcudone", Tok: 0, Res: pick(r, []string{"ok", "ok", "ok", "fail"})}
